@@ -93,6 +93,44 @@ def build(ctx):
     ctx.ground("crystal.Crystal/memo_fields/stored_on_self_only", not planted, tag="F",
                clause="a memo field is assigned on self only (never planted on another crystal object, e.g. a derived crystal that is being returned)", detail=planted,
                witness={"sites": planted, "history": "[derive the crystal, ask the derived crystal] versus a fresh crystal with the derived cell, space group and sites"})
+    # no method edits a module-level table in place (directly or through a local alias of it): such a table is state shared by every crystal in the process
+    mod_names = set(mod.assigns) | {n_ for n_ in mod.imports}
+    INPLACE = {"update", "append", "extend", "insert", "pop", "popitem", "clear", "remove", "setdefault", "sort", "reverse", "add", "discard", "fill", "resize", "put"}
+    shared_edits = []
+    for name, node in cf.methods.items():
+        params = {a_.arg for a_ in node.args.args + node.args.kwonlyargs + node.args.posonlyargs} | ({node.args.vararg.arg} if node.args.vararg else set()) | \
+                 ({node.args.kwarg.arg} if node.args.kwarg else set())
+        local_stores = {t_.id for n_ in ast.walk(node) if isinstance(n_, (ast.Assign, ast.AugAssign, ast.AnnAssign, ast.For, ast.comprehension, ast.NamedExpr, ast.With))
+                        for t_ in ast.walk(n_.targets[0] if isinstance(n_, ast.Assign) else getattr(n_, "target", n_)) if isinstance(t_, ast.Name) and isinstance(t_.ctx, ast.Store)}
+        aliases = {}
+        for n_ in ast.walk(node):
+            if isinstance(n_, ast.Assign) and len(n_.targets) == 1 and isinstance(n_.targets[0], ast.Name) and isinstance(n_.value, ast.Name) \
+                    and n_.value.id in mod.assigns and n_.value.id not in params and n_.value.id not in local_stores:
+                aliases[n_.targets[0].id] = n_.value.id
+
+        def shared(base):
+            if not isinstance(base, ast.Name):
+                return None
+            if base.id in aliases:
+                return aliases[base.id]
+            if base.id in mod.assigns and base.id not in params and base.id not in local_stores:
+                return base.id
+            return None
+        for n_ in ast.walk(node):
+            tgt = None
+            if isinstance(n_, ast.Call) and isinstance(n_.func, ast.Attribute) and n_.func.attr in INPLACE:
+                tgt = shared(n_.func.value)
+            elif isinstance(n_, (ast.Assign, ast.AugAssign)):
+                for t_ in (n_.targets if isinstance(n_, ast.Assign) else [n_.target]):
+                    if isinstance(t_, ast.Subscript):
+                        tgt = tgt or shared(t_.value)
+                    elif isinstance(n_, ast.AugAssign) and isinstance(t_, ast.Name):
+                        tgt = tgt or (aliases.get(t_.id))
+            if tgt:
+                shared_edits.append({"method": name, "line": n_.lineno, "edits_module_level_name": tgt, "statement": ast.unparse(n_)[:100]})
+    ctx.ground("crystal.Crystal/module_tables/not_edited_in_place", not shared_edits, tag="F",
+               clause="no method of Crystal updates a module-level table in place, directly or through a local name bound to it (update/append/item store/...): such a table is shared by all crystals",
+               detail=shared_edits[:5], witness={"sites": shared_edits[:5], "history": "[another crystal queried with non-default arguments, then this one] versus [this one alone]"})
     mutators = []
     n_query = 0
     for name, node in cf.methods.items():
